@@ -331,6 +331,15 @@ var boundaryTemplates = []struct {
 	{"func skip(v) {\nif v == 2 {\ncontinue\n}\n}\nn = 0\nfor n < 3 {\nn++\nskip(n)\nprobe(n)\n}\nprobe(99)", []string{"(i 1)"}, "unexpected continue"},
 	{"func stop(a, b, c, d, e) {\nbreak\n}\nfor {\nprobe(1)\nstop(1, 2, 3, 4, 5)\nprobe(2)\nbreak\n}\nprobe(99)", []string{"(i 1)"}, "unexpected break"},
 	{"func stop(v...) {\nswitch 1 {\ncase 1:\nbreak\n}\n}\nfor i = 0; i < 2; i++ {\nfor j = 0; j < 2; j++ {\nprobe(10 * i + j)\nstop()\n}\n}\nprobe(99)", []string{"(i 0)"}, "unexpected break"},
+	// break / continue executed in a catch block act on the enclosing loop, with or without a finally block that does something
+	{"n = 0\nq = 0\nfor i = 0; i < 4; i++ {\ntry {\nthrow \"x\"\n} catch e {\ncontinue\n} finally {\nq = q + i\n}\nn++\n}\nprobe(n)", []string{"(i 0)"}, ""},
+	{"n = 0\nfor x in [1, 2, 3] {\ntry {\nthrow \"x\"\n} catch e {\ncontinue\n} finally {\nid(x)\n}\nn++\n}\nprobe(n)", []string{"(i 0)"}, ""},
+	{"n = 0\nfor n < 10 {\nn++\ntry {\n1 % 0\n} catch e {\nbreak\n} finally {\nvar seen = n\n}\nn = 100\n}\nprobe(n)", []string{"(i 1)"}, ""},
+	{"r = []\nfor i = 0; i < 2; i++ {\nfor j = 0; j < 3; j++ {\ntry {\nthrow j\n} catch e {\nif j == 1 {\nbreak\n}\n} finally {\nk = j\n}\nr += 10 * i + j\n}\n}\nprobe(r)", []string{"(l (i 0) (i 10))"}, ""},
+	// a for-in loop visits the elements of the slice as they are when it gets to them: a store ahead of the loop position is seen
+	{"a = [1, 2, 3]\nseen = []\nfor x in a {\na[2] = 10\nseen += x\n}\nprobe(seen)", []string{"(l (i 1) (i 2) (i 10))"}, ""},
+	{"t = make([]int64, 3)\nseen = []\nfor x in t {\nt[1] = 5\nt[2] = 6\nseen += x\n}\nprobe(seen)", []string{"(l (i 0) (i 5) (i 6))"}, ""},
+	{"a = [\"a\", \"b\", \"a\", \"c\", \"b\"]\nuniq = []\ni = 0\nfor x in a {\nif x != \"\" {\nuniq += x\nfor j = i + 1; j < len(a); j++ {\nif a[j] == x {\na[j] = \"\"\n}\n}\n}\ni++\n}\nprobe(uniq)", []string{"(l (s 61) (s 62) (s 63))"}, ""},
 	// the subject of a for-in loop is evaluated once, to a value: a body that replaces the slot it was read from does not move the loop
 	{"a = [[1, 2]]\nn = 0\nfor x in a[0] {\nif n < 5 {\na[0] += 9\n}\nn++\n}\nprobe(n)", []string{"(i 2)"}, ""},
 	{"m = make([][]int64, 1)\nm[0] = make([]int64, 2)\nn = 0\nfor x in m[0] {\nif n < 5 {\nm[0] += 9\n}\nn++\n}\nprobe(n)", []string{"(i 2)"}, ""},
